@@ -52,7 +52,7 @@ def check(run):
     run.check_proofs('C05', THEOREMS, extra_targets=['theories/Extract/Ex_sync.vo'])
     jbin = vlib.build_judge('sync')
     rng = run.rng
-    n = 150 if run.tier == 'quick' else 2500
+    n = 150 if run.tier == 'quick' else 12000
     base = tempfile.mkdtemp(prefix='c05_', dir=vlib.CACHE)
     try:
         for i in range(n):
